@@ -244,7 +244,7 @@ def judge(case, ctx):
                 continue
         elif kind == "array":
             got = arrays.get(name, "absent")
-            if got == "absent":
+            if got == "absent" or got == -1:
                 classes.append("unevaluated.array")
                 continue
         else:
